@@ -66,6 +66,7 @@ fn dump() {
         may("p_slices", a, p_slices);
         may("p_asserts", a, p_asserts);
         may("p_more", a, p_more);
+        may("p_more2", a, p_more2);
         show("z_more2", a, z_more2(a));
         show("z_more3", a, z_more3(a));
         show("z_more4", a, z_more4(a));
